@@ -40,7 +40,9 @@ def coq_call(c):
         return "CKill"
     f = c["flags"]
     return "(CSend {} {} {} {} {} [{}] [{}])".format(
-        c["pid"], coq_bool("w" in f), coq_bool("b" not in f), coq_bool("g" in f), coq_bool("f" in f),
+        # n (remote mode: message type without wire format) = the default box_message refuses = boxok false;
+        # digits / s / c / q select the entry point and do not exist in the model (one kind of send frame)
+        c["pid"], coq_bool("w" in f), coq_bool("b" not in f and "n" not in f), coq_bool("g" in f), coq_bool("f" in f),
         "; ".join(coq_call(x) for x in c["box"]), "; ".join(coq_call(x) for x in c["h"]))
 
 
@@ -49,8 +51,10 @@ def rust_line(acts):
     for a in acts:
         if a[0] in ("do", "start"):
             out.append(f"{a[0]} {rust_call(a[1])}")
-        elif a[0] in ("rel", "ps"):
+        elif a[0] in ("rel", "ps", "mode"):
             out.append(f"{a[0]} {a[1]}")
+        elif a[0] == "go":
+            out.append("go")
         else:
             out.append("run")
     return " ; ".join(out)
@@ -65,7 +69,7 @@ def coq_exec(acts):
 def coq_acts(acts):
     out = []
     for a in acts:
-        if a[0] == "ps":
+        if a[0] in ("ps", "mode", "go"):
             continue
         if a[0] == "do":
             out.append(f"ADo {coq_call(a[1])}")
@@ -88,7 +92,7 @@ def calls_in(c):
 def scenario_stats(acts):
     st = {"sends": 0, "drains": 0, "stops": 0, "kills": 0, "gated": 0, "nested": 0, "runs": 0}
     for a in acts:
-        if a[0] == "ps":
+        if a[0] in ("ps", "mode", "go"):
             continue
         if a[0] in ("do", "start"):
             for c in calls_in(a[1]):
@@ -215,6 +219,11 @@ def gen_random(rng, profile):
             flags += "f"
         if "w" not in flags:
             flags += via_flag()
+        if not gated and not any(ch in flags for ch in "wb123456789") and rng.random() < 0.12:
+            # the message enters through ActorCell::send_serialized (Cast / Call with the reply receiver already
+            # dropped / Call whose caller still waits); box_message is not involved
+            flags += rng.choice("scq")
+            return S(new_pid(), flags, [], [leaf_call(1)] if rng.random() < 0.2 else [])
         box, h = [], []
         pb = 0.25 if profile == "drain" else 0.1
         ph = 0.2 if profile == "drain" else 0.35
@@ -266,6 +275,115 @@ def gen_random(rng, profile):
     return acts
 
 
+def gen_remote(rng):
+    """mode remote: the target carries a remote ActorId (spawn_linked_remote) and handles serialized messages;
+    sends of a serializable type are plain sends, sends of a type without wire format (flag n) must be refused by
+    the default box_message (InvalidActorType, ticket dropped) without disturbing the actor"""
+    pid = [0]
+
+    def new_pid():
+        pid[0] += 1
+        return pid[0]
+
+    def msg(depth=0):
+        flags = rng.choice(["", "", "", "1", "2", "5"])
+        r = rng.random()
+        if r < 0.25:
+            flags += "n"
+        elif r < 0.30:
+            flags += "f"
+        h = []
+        if depth < 2 and "n" not in flags and rng.random() < 0.3:
+            h = [rng.choice([D, T, None, None]) or msg(depth + 1) for _ in range(rng.choice([1, 2]))]
+        return S(new_pid(), flags, [], h)
+
+    acts = [("mode", "remote")]
+    for _ in range(rng.choice([3, 5, 8])):
+        r = rng.random()
+        if r < 0.6:
+            acts.append(("do", msg()))
+        elif r < 0.72:
+            acts.append(("do", D))
+        elif r < 0.77:
+            acts.append(("do", T))
+        elif r < 0.80:
+            acts.append(("do", K))
+        else:
+            acts.append(("run",))
+    acts += [("run",), ("do", msg()), ("do", S(new_pid(), "n")), ("run",)]
+    return acts
+
+
+def instant_scenarios(rng=None, n_random=0):
+    """mode instant: the target is created with spawn_instant and parked in pre_start (status Starting); sends are
+    accepted, a drain closes admission and publishes Draining; after `go` the loop must still run everything accepted
+    and exit with reason Drained. (stop/kill before `go` are not generated: a kill during pre_start is a failed start.)"""
+    out = []
+    alphabet = ["S", "D", "G", "H"]   # plain send, drain, gated sender thread, send whose handler drains again
+
+    def build(seq, rel_before_go):
+        pid, acts, parked = 1, [("mode", "instant")], 0
+        for x in seq:
+            if x == "S":
+                acts.append(("do", S(pid)))
+            elif x == "D":
+                acts.append(("do", D))
+            elif x == "G":
+                acts.append(("start", S(pid, "g")))
+                parked += 1
+            else:
+                acts.append(("do", S(pid, "", [], [D, S(pid + 40)])))
+            pid += 1
+        rel = [("rel", k) for k in range(parked)]
+        if rel_before_go:
+            acts += rel + [("go",), ("run",)]
+        else:
+            acts += [("go",), ("run",)] + rel + [("run",)]
+        acts += [("do", S(pid)), ("do", D), ("run",)]
+        return acts
+
+    for n in (1, 2, 3):
+        for seq in itertools.product(alphabet, repeat=n):
+            if seq.count("G") > 2:
+                continue
+            for rb in ((False, True) if "G" in seq else (False,)):
+                out.append(build(seq, rb))
+    if rng is not None:
+        for _ in range(n_random):
+            seq = [rng.choice(["S", "S", "D", "G", "H"]) for _ in range(rng.choice([4, 5, 6]))]
+            while seq.count("G") > 3:
+                seq.remove("G")
+            out.append(build(seq, rng.random() < 0.5))
+    return out
+
+
+def remote_exhaustive():
+    """all action sequences of length <= 3 over {serializable send, non-serializable send, send whose handler sends
+    both kinds, drain, stop, run} against a remote-id target"""
+    out = []
+    alphabet = ["S", "N", "H", "D", "T", "R"]
+    for n in (1, 2, 3):
+        for seq in itertools.product(alphabet, repeat=n):
+            pid, acts = 1, [("mode", "remote")]
+            for x in seq:
+                if x == "S":
+                    acts.append(("do", S(pid, "2" if pid % 2 else "")))
+                elif x == "N":
+                    acts.append(("do", S(pid, "n")))
+                elif x == "H":
+                    acts.append(("do", S(pid, "", [], [S(100 + 2 * pid, "n"), S(101 + 2 * pid)])))
+                elif x == "D":
+                    acts.append(("do", D))
+                elif x == "T":
+                    acts.append(("do", T))
+                else:
+                    acts.append(("run",))
+                pid += 1
+            acts += [("run",), ("do", S(pid, "n")), ("do", S(pid + 1)), ("run",)]
+            out.append(acts)
+    return out
+
+
 CORPUS = [
     # the repository's own re-entrant test, with a repeated drain and late sends
     [("do", S(1)), ("start", S(2, "g", [D])), ("do", D), ("do", S(3)), ("rel", 0), ("do", D), ("do", S(4)), ("run",)],
@@ -293,6 +411,15 @@ CORPUS = [
     # seeded C02-3 family: call_and_forward / multi_call followed at once by another send of the same sender
     [("do", S(1, "7")), ("do", S(2)), ("do", S(3, "8")), ("do", S(4)), ("do", S(5, "9")), ("do", S(6)),
      ("do", S(7, "2", [], [S(8, "7"), S(9)])), ("run",)],
+    # seeded C07-5 family: drained while still in pre_start (spawn_instant): the loop must still run and drain
+    [("mode", "instant"), ("do", S(1)), ("do", D), ("do", S(2)), ("go",), ("run",), ("do", S(3)), ("run",)],
+    [("mode", "instant"), ("do", S(1)), ("start", S(2, "g")), ("do", D), ("go",), ("run",), ("rel", 0), ("run",)],
+    # seeded C02-5 family: remote-id target; a message type without wire format is refused, actor undisturbed
+    [("mode", "remote"), ("do", S(1)), ("do", S(2, "n")), ("do", S(3, "2", [], [S(4, "n"), S(5)])), ("run",),
+     ("do", D), ("do", S(6, "n")), ("do", S(7)), ("run",)],
+    # seeded C02-6 family: serialized Cast / Call with dropped receiver / Call with waiting caller
+    [("do", S(1, "s")), ("do", S(2, "c")), ("do", S(3, "q", [], [S(4, "c")])), ("do", S(5)), ("run",),
+     ("do", S(6, "c")), ("run",)],
     # drain while a sender is parked, actor runs in between, then release
     [("do", S(1)), ("start", S(2, "g")), ("do", D), ("run",), ("do", S(3)), ("rel", 0), ("run",), ("do", D), ("run",)],
 ]
@@ -333,7 +460,43 @@ def run_scenarios(chk, build, scenarios, tag):
         r["c07"] = t[1] == "true"
         r["c02"] = t[2] == "true"
         r["model_complete"] = t[3] == "true"
-        r["model_t"] = t[4]
+        r["model_t"] = mark_nonser(t[4], r["acts"])
+    return res
+
+
+def mark_nonser(view, acts):
+    """mode remote: a send of a message type without wire format is a 'wrong-typed' send for the oracle
+    (the harness logs EBegin pid true); in the model it is a send whose box_message fails (EBegin pid false)"""
+    ns = {c["pid"] for a in acts if a[0] in ("do", "start") for c in calls_in(a[1]) if c["k"] == "S" and "n" in c["flags"]}
+    if not ns:
+        return view
+    log = [("EBegin", e[1], "true") if isinstance(e, tuple) and e[0] == "EBegin" and e[1] in ns else e for e in view[1]]
+    return ("tuple", log, view[2])
+
+
+def run_race(chk, build, specs, tag):
+    """race rounds (refused senders vs drain): returns list of dicts line, rounds, bad, bad_logs (with oracle verdicts),
+    sample verdicts"""
+    lines = [f"race {a} {b} {c}" for a, b, c in specs]
+    impl = run_harness(build, BIN, lines, timeout=1500)
+    res, exprs = [], []
+    for line, out in zip(lines, impl):
+        t = parse_term(out)
+        r = {"line": line, "rounds": t[1], "bad": t[2], "bad_logs": [show_term(x) for x in t[3]],
+             "good_logs": [show_term(x) for x in t[4]], "impl": out[:4000]}
+        for l in r["bad_logs"] + r["good_logs"]:
+            exprs.append(f"(check_C07 true {l}, check_C02 false {l})")
+        res.append(r)
+    vals = coq_eval(tag + "race", IMPORTS, exprs, scope="nat_scope")
+    k = 0
+    for r in res:
+        r["bad_verdicts"], r["good_verdicts"] = [], []
+        for _ in r["bad_logs"]:
+            t = parse_term(vals[k]); k += 1
+            r["bad_verdicts"].append((t[1] == "true", t[2] == "true"))
+        for _ in r["good_logs"]:
+            t = parse_term(vals[k]); k += 1
+            r["good_verdicts"].append((t[1] == "true", t[2] == "true"))
     return res
 
 
